@@ -17,5 +17,5 @@ echo "CONFIRM $id $(basename $m): $conf"
 git -C /repo apply $m/patch.diff || { echo "patch does not apply to /repo"; exit 2; }
 out=$(cd /verif && ./check $id 2>&1 | tail -3)
 git -C /repo checkout -- .
-( cd /verif/go && GOFLAGS=-mod=mod GOPROXY=off GOSUMDB=off GOTOOLCHAIN=local go run -tags verif ./cmd/gotocoq -out ../coq/Gen >/dev/null 2>&1 )  # tables back to the clean tree's
+( cd /verif/go && GOFLAGS=-mod=mod GOPROXY=off GOSUMDB=off GOTOOLCHAIN=local go run -tags verif ./cmd/gotocoq -out ../coq/Gen >/dev/null 2>&1; go run ./cmd/effects -repo /repo -out ../coq/Gen/Effects.v >/dev/null 2>&1 )  # tables back to the clean tree's
 echo "$out" | grep -q "^VIOLATION" && echo "DETECTED $id $(basename $m): $(echo "$out" | grep ^VIOLATION)" || echo "MISSED $id $(basename $m): $out"
